@@ -10,13 +10,25 @@ package nsqlookupd
 // Set once when the object is built, never written afterwards (checked by an SSA sweep of the package).
 //@ immutable LookupProtocolV1.nsqlookupd, NSQLookupd.DB, NSQLookupd.opts, ClientV1.Conn, Producer.peerInfo, PeerInfo.id
 // The listeners exist (and are TCP listeners) by the time a connection is served: assumed.
+// RealTCPAddr / RealHTTPAddr (round 6, area M: were `trusted` stubs, the bodies are VERIFIED now): `listener.Addr().(*net.TCPAddr)` cannot panic and gives a
+// real address BECAUSE the daemon's listeners are TCP listeners - a fact about the object's construction: nsqlookupd.New opens both with net.Listen("tcp", ..)
+// ([listeners-are-tcp] there) and the two fields are never written again (`immutable`, SSA sweep). It is part of validP, the precondition every protocol
+// function already carries from tcpServer.Handle down to IDENTIFY (the only caller).
+//@ pred r6MTcpL(ln net.Listener) := ln != nil && dyntype(ln) == typetag("*net.TCPListener")
+//@ immutable NSQLookupd.tcpListener, NSQLookupd.httpListener
 //@ func (l *NSQLookupd) RealTCPAddr() *net.TCPAddr
-//@   trusted
-//@   ensures result != nil
+//@   props C15 C14
+//@   requires[tcp-listener] l != nil && r6MTcpL(l.tcpListener)
+//@   ensures[real-address] result != nil
+//@   modifies
+//@   nochan
 //@ func (l *NSQLookupd) RealHTTPAddr() *net.TCPAddr
-//@   trusted
-//@   ensures result != nil
-//@ pred validP(p *LookupProtocolV1) := p != nil && p.nsqlookupd != nil && p.nsqlookupd.DB != nil && p.nsqlookupd.opts != nil
+//@   props C15 C14
+//@   requires[tcp-listener] l != nil && r6MTcpL(l.httpListener)
+//@   ensures[real-address] result != nil
+//@   modifies
+//@   nochan
+//@ pred validP(p *LookupProtocolV1) := p != nil && p.nsqlookupd != nil && p.nsqlookupd.DB != nil && p.nsqlookupd.opts != nil && r6MTcpL(p.nsqlookupd.tcpListener) && r6MTcpL(p.nsqlookupd.httpListener)
 //@ pred validC(c *ClientV1) := c != nil && c.Conn != nil
 
 // isFatal(err, code): err is a *protocol.FatalClientErr carrying exactly that code.
